@@ -215,6 +215,8 @@ struct World {
         auto r = Submit(tx);
         if (r.m_result_type != MempoolAcceptResult::ResultType::VALID) throw std::runtime_error(std::string(what) + ": mempool rejected: " + r.m_state.ToString());
     }
+    // CWallet::AddToSpends releases the user's lock on every coin a transaction added to the wallet spends
+    void SpentByWalletTx(const CTransactionRef& tx) { for (const auto& in : tx->vin) locked.erase(in.prevout); }
     CScript NewWalletScript(const std::string& type)
     {
         auto d = wallet->GetNewDestination(TypeOf(type), "");
@@ -404,6 +406,7 @@ void Setup(World& w, const UniValue& init)
             if (!res) throw std::runtime_error("setup us: " + util::ErrorString(res).original);
             if (res->tx->vout.size() != 1) throw std::runtime_error("setup us: unexpected change");
             w.wallet->CommitTransaction(res->tx);
+            w.SpentByWalletTx(res->tx);
             w.Name(res->tx, "s");
             w.MustSubmit(res->tx, "setup us");
             w.coin_ids[x.id] = COutPoint(res->tx->GetHash(), 0);
@@ -622,6 +625,7 @@ UniValue DoCreate(World& w, const UniValue& a, UniValue& line)
     if (a.exists("commit") && a["commit"].get_bool() && acc.m_result_type == MempoolAcceptResult::ResultType::VALID) {
         if (ext.empty()) w.wallet->CommitTransaction(tx);      // CWallet::CommitTransaction requires every input to be a wallet transaction
         w.MustSubmit(tx, "commit");
+        w.SpentByWalletTx(tx);
         w.Sync();
         w.created.push_back(tn);
         r.pushKV("committed", true);
@@ -768,6 +772,7 @@ UniValue DoBump(World& w, const UniValue& a, UniValue& line)
         r.pushKV("commitcode", (int)cres);
         if (cres == feebumper::Result::OK) {
             committed = true;
+            w.SpentByWalletTx(ntx);
             orig.replaced_by = nn;
             w.txs[nn].wallet_created = true; w.txs[nn].fee = new_fee;
             auto sub = w.Submit(ntx);
@@ -831,6 +836,7 @@ UniValue DoChildOf(World& w, const UniValue& a, bool submit)
     auto acc = w.Submit(res->tx, true);
     if (acc.m_result_type != MempoolAcceptResult::ResultType::VALID) { r.pushKV("skipped", true); r.pushKV("err", acc.m_state.GetRejectReason()); return r; }
     w.wallet->CommitTransaction(res->tx);
+    w.SpentByWalletTx(res->tx);
     if (submit) w.MustSubmit(res->tx, "childof");        // otherwise the child exists in the wallet only (a broadcast that did not happen yet)
     w.Sync();
     r.pushKV("tx", w.Name(res->tx, "k")); r.pushKV("parent", t.name); r.pushKV("ok", true); r.pushKV("submitted", submit);
@@ -1020,7 +1026,7 @@ struct BalWorld {
         bal.pushKV("trusted", (int64_t)Units(b.m_mine_trusted, exact)); bal.pushKV("pending", (int64_t)Units(b.m_mine_untrusted_pending, exact)); bal.pushKV("immature", (int64_t)Units(b.m_mine_immature, exact));
         o.pushKV("bal", bal);
         if (!exact) o.pushKV("inexact", strprintf("%d/%d/%d", b.m_mine_trusted, b.m_mine_untrusted_pending, b.m_mine_immature));
-        std::vector<std::string> coins, known, aband, confl;
+        std::vector<std::string> coins, known, aband, confl, pconfl;
         {
             LOCK(w.wallet->cs_wallet);
             CCoinControl cc;
@@ -1032,10 +1038,12 @@ struct BalWorld {
                 known.push_back(n);
                 if (wtx.isAbandoned() && !wtx.IsCoinBase()) aband.push_back(n);
                 if (wtx.isBlockConflicted()) confl.push_back(n);
+                if (wtx.isMempoolConflicted()) pconfl.push_back(n);
             }
         }
         auto arr = [](std::vector<std::string>& v) { std::sort(v.begin(), v.end()); UniValue a(UniValue::VARR); for (const auto& s : v) a.push_back(s); return a; };
         o.pushKV("coins", arr(coins)); o.pushKV("known", arr(known)); o.pushKV("aband", arr(aband)); o.pushKV("conflicted", arr(confl));
+        o.pushKV("pconflicted", arr(pconfl));
         o.pushKV("blocks", block_recs);
         return o;
     }
